@@ -78,14 +78,17 @@ def run(ctx):
         ctx.ob('C12.R4', fi, s.lineno, 'a fresh container holds pure solvent only', ok, fact=show(ic, 60),
                why='the new solution is seeded with something other than pure solvent', key='seed contents')
     # residuals returned
-    for ex in ff.normal_exits():
-        v = strip_refs(ex.value)
+    from .common import alternatives
+    from ..flow import normalise_fact
+    for ex, conds, leaf in [(ex, conds, leaf) for ex in ff.normal_exits() for conds, leaf in alternatives(ff, ex.value)]:
+        # (the returned tuple may be chosen by a conditional expression: each alternative with its condition)
+        v = strip_refs(leaf)
         elts = v.elts if isinstance(v, ast.Tuple) else []
         names = []
         for e in elts:
             names.append(sorted({n.name for n in deep_walk(e) if isinstance(n, Param)}))
         pure_solvent = None
-        for c in facts_at(ex.state):
+        for c in facts_at(ex.state) + [c_ for f_ in conds for c_ in normalise_fact(f_)]:
             t = strip_refs(c.left)
             if c.op in ('truth', 'falsy') and isinstance(t, ast.Call) and getattr(t.func, 'id', '') == 'isinstance' and \
                     any(isinstance(n, Param) and n.name == 'solvent' for n in deep_walk(t.args[0])):
